@@ -391,8 +391,21 @@ class Context:
         array_prototype._prototype = self._object_prototype
 
         def array_constructor(*args):
-            if len(args) == 1 and isinstance(args[0], (int, float)):
-                arr = JSArray(int(args[0]))
+            if (
+                len(args) == 1
+                and isinstance(args[0], (int, float))
+                and not isinstance(args[0], bool)
+            ):
+                # Array(len): len must be an integer in 0..2^32-1
+                from .errors import JSRangeError
+
+                n = args[0]
+                if n != n or n < 0 or n > 2**32 - 1 or n != int(n):
+                    raise JSRangeError("Invalid array length")
+                try:
+                    arr = JSArray(int(n))
+                except (MemoryError, OverflowError):
+                    raise JSRangeError("Invalid array length")
             else:
                 arr = JSArray()
                 for arg in args:
@@ -1001,8 +1014,17 @@ class Context:
         from .values import JSArrayBuffer
 
         def constructor_fn(*args):
-            length = int(args[0]) if args else 0
-            return JSArrayBuffer(length)
+            # new ArrayBuffer(length): length goes through ToIndex
+            from .vm import to_integer_or_infinity
+            from .errors import JSRangeError
+
+            length = to_integer_or_infinity(args[0]) if args else 0
+            if length < 0 or length > 2**53 - 1:
+                raise JSRangeError("Invalid array buffer length")
+            try:
+                return JSArrayBuffer(int(length))
+            except (MemoryError, OverflowError):
+                raise JSRangeError("Array buffer allocation failed")
 
         constructor = JSCallableObject(constructor_fn)
         constructor._name = "ArrayBuffer"
